@@ -36,18 +36,25 @@ variable (g : Grammar) (inp : Input)
 
 def adv (s : S0) (n : Nat) : S0 := { s with pos := s.pos + n }
 
-/-- one rule application: atomicity by modifier, one pair unless silent, inner pairs of an
-    `@` rule hidden except under a nested `$`/`!` rule -/
+/-- atomicity inside a rule body, by modifier: `@`, `$` and the trivia rules switch implicit
+    trivia off, `!` switches it back on, other rules inherit -/
+def ruleAtomic (name : String) (mod : Nat) (outer : Bool) : Bool :=
+  if hasBit mod ATOMIC || hasBit mod COMPOUND || L1.isTriviaName name then true
+  else if hasBit mod NONATOMIC then false
+  else outer
+
+/-- what a successful rule body becomes: a silent rule passes its pairs up; any other rule
+    yields exactly one pair spanning the match; an `@` rule hides its inner pairs except those
+    produced under a nested `$`/`!` rule.  Atomicity is restored. -/
+def ruleWrap (name : String) (mod : Nat) (s s' : S0) (ps : List Pair) : R0 :=
+  let out := { s' with atomic := s.atomic }
+  if hasBit mod SILENT then .ok out ps
+  else .ok out [.mk name mod s.pos s'.pos (if hasBit mod ATOMIC then visibleList ps else ps) none]
+
+/-- one rule application -/
 def ruleApply (rec : Sem0) (name : String) (mod : Nat) (body : Expr) (s : S0) : R0 :=
-  let a :=
-    if hasBit mod ATOMIC || hasBit mod COMPOUND || L1.isTriviaName name then true
-    else if hasBit mod NONATOMIC then false
-    else s.atomic
-  match rec body { s with atomic := a } with
-  | .ok s' ps =>
-    let out := { s' with atomic := s.atomic }
-    if hasBit mod SILENT then .ok out ps
-    else .ok out [.mk name mod s.pos s'.pos (if hasBit mod ATOMIC then visibleList ps else ps) none]
+  match rec body { s with atomic := ruleAtomic name mod s.atomic } with
+  | .ok s' ps => ruleWrap name mod s s' ps
   | r => r
 
 def callRule (rec : Sem0) (name : String) (s : S0) : R0 :=
@@ -55,26 +62,40 @@ def callRule (rec : Sem0) (name : String) (s : S0) : R0 :=
   | none => .stuck
   | some r => ruleApply rec r.name r.mod r.body s
 
+/-- one attempt at a trivia rule from `s` -/
+inductive Try0 where
+  | matched (s : S0) (ps : List Pair)
+  | no
+  | stop (r : R0)
+
+def trySkip (rec : Sem0) (r : Option Rule) (s : S0) : Try0 :=
+  match r with
+  | none => .no
+  | some r =>
+    match ruleApply rec r.name r.mod r.body s with
+    | .ok s' ps => .matched s' ps
+    | .fail => .no
+    | r => .stop r
+
 /-- `(WHITESPACE | COMMENT)*`, every alternative tried from the same state -/
 def skipLoop (rec : Sem0) (ws cm : Option Rule) : Nat → S0 → List Pair → R0
   | 0, _, _ => .oof
   | k + 1, s, acc =>
-    let tryRule (r : Option Rule) (next : Unit → R0) : R0 :=
-      match r with
-      | none => next ()
-      | some r =>
-        match ruleApply rec r.name r.mod r.body s with
-        | .ok s' ps => skipLoop rec ws cm k s' (acc ++ ps)
-        | .fail => next ()
-        | r => r
-    tryRule ws fun _ => tryRule cm fun _ => .ok s acc
+    match trySkip rec ws s with
+    | .matched s' ps => skipLoop rec ws cm k s' (acc ++ ps)
+    | .stop r => r
+    | .no =>
+      match trySkip rec cm s with
+      | .matched s' ps => skipLoop rec ws cm k s' (acc ++ ps)
+      | .stop r => r
+      | .no => .ok s acc
 
 /-- implicit trivia: nothing in an atomic context or when no trivia rule is defined; the
     fused `SKIP` rule when the optimizer made one -/
 def skip (rec : Sem0) (k : Nat) (s : S0) : R0 :=
   if s.atomic then .ok s []
   else
-    match g.lookup "SKIP" with
+    match g.fusedSkip with
     | some r => ruleApply rec r.name r.mod r.body s
     | none =>
       let ws := g.lookup "WHITESPACE"
